@@ -40,7 +40,8 @@ CHECKS = {
     },
     "C15": {
         "runs": [dict(pkg="./pkg/chart/v2/util", files=["pkg/chart/v2/util/h_c15_roundtrip.go"], entries=["H15RoundTrip", "H15Name", "H15Tree"], bounds_quick={"bodylen": 3, "namelen": 1}, bounds_thorough={"bodylen": 4, "namelen": 2}),
-                 dict(pkg="./pkg/ignore", files=["pkg/ignore/h_c15_ignore.go"], entries=["H15Ignore", "H15IgnoreFile"], bounds_quick={"linelen": 3, "pathlen": 3}, bounds_thorough={"linelen": 4, "pathlen": 4})],
+                 dict(pkg="./pkg/ignore", files=["pkg/ignore/h_c15_ignore.go"], entries=["H15Ignore", "H15IgnoreFile"], bounds_quick={"linelen": 3, "pathlen": 3}, bounds_thorough={"linelen": 4, "pathlen": 4}),
+                 dict(pkg="./pkg/chart/v2/loader", files=["pkg/chart/v2/loader/h_c15_dir.go"], entries=["H15Dir"], bounds_quick={"linelen": 3}, bounds_thorough={"linelen": 4}, limits={"max_decisions": 4000})],
         "bounds": {}, "assumptions": [],
     },
     "C16": {
